@@ -186,6 +186,15 @@ static void kmac(void)
                     if (A) { ascon_kmaca_state_t s; ascon_kmaca_init(&s, key, kl, cust, cl, ol); ascon_kmaca_absorb(&s, msg, ml); ascon_kmaca_squeeze(&s, o, ol); ascon_kmaca_free(&s); }
                     else { ascon_kmac_state_t s; ascon_kmac_init(&s, key, kl, cust, cl, ol); ascon_kmac_absorb(&s, msg, ml); ascon_kmac_squeeze(&s, o, ol); ascon_kmac_free(&s); }
                     cmpo(A ? "kmaca:incremental" : "kmac:incremental", o, e, ol, "key/msg/custom/out", kl, ml, cl, ol);
+                    if (ol == 33 || ol == 9) {
+                        /* declared length 0 = arbitrary-length output: cXOF("KMAC", custom, 0) over key || message */
+                        uint8_t e0[48], o0[48], km[200]; memcpy(km, key, kl); memcpy(km + kl, msg, ml);
+                        ref_cxof(A, (const uint8_t *)"KMAC", 4, cust, cl, 0, km, kl + ml, e0, 40);
+                        if (A) { ascon_kmaca_state_t s; ascon_kmaca_init(&s, key, kl, cust, cl, 0); ascon_kmaca_absorb(&s, msg, ml); ascon_kmaca_squeeze(&s, o0, 11); ascon_kmaca_squeeze(&s, o0 + 11, 29); ascon_kmaca_reinit(&s, key, kl, cust, cl, 0); ascon_kmaca_absorb(&s, msg, ml); ascon_kmaca_squeeze(&s, o0 + 40, 8); ascon_kmaca_free(&s); }
+                        else { ascon_kmac_state_t s; ascon_kmac_init(&s, key, kl, cust, cl, 0); ascon_kmac_absorb(&s, msg, ml); ascon_kmac_squeeze(&s, o0, 11); ascon_kmac_squeeze(&s, o0 + 11, 29); ascon_kmac_reinit(&s, key, kl, cust, cl, 0); ascon_kmac_absorb(&s, msg, ml); ascon_kmac_squeeze(&s, o0 + 40, 8); ascon_kmac_free(&s); }
+                        hx_stat("evaluations", 1);
+                        if (memcmp(o0, e0, 40) || memcmp(o0 + 40, e0, 8)) hx_fail(A ? "kmaca:declared-0" : "kmac:declared-0", "init / reinit with declared length 0 differs from cXOF('KMAC', custom, 0): key/msg/custom %d/%d/%d pat=%d", kl, ml, cl, pat);
+                    }
                     {   /* reinit of an object used with key and custom exchanged and another output length (the default 32 and others) */
                         size_t ol2 = (kl + ml + cl) % 2 ? 32 : 17; uint8_t t[8]; memset(o, 0xAA, ol);
                         if (A) { ascon_kmaca_state_t s; ascon_kmaca_init(&s, cust, cl, key, kl, ol2); ascon_kmaca_absorb(&s, msg, 9); if (ml & 1) ascon_kmaca_squeeze(&s, t, 8); ascon_kmaca_reinit(&s, key, kl, cust, cl, ol); ascon_kmaca_absorb(&s, msg, ml); ascon_kmaca_squeeze(&s, o, ol); ascon_kmaca_free(&s); }
